@@ -822,3 +822,54 @@ func replaceOwnName(text, name string) string {
 	}
 	return b.String()
 }
+
+// MethodReceivers lists the canonical receiver terms of the method calls inside a condition, with the method names
+// called on each: `!it.Iterator.Valid()` yields {"it.Iterator": {"Valid"}}.
+func (c *Canon) MethodReceivers(f *F) map[string]map[string]bool {
+	out := map[string]map[string]bool{}
+	var walk func(f *F)
+	visit := func(e ast.Node) {
+		ast.Inspect(e, func(n ast.Node) bool {
+			switch x := n.(type) {
+			case *ast.FuncLit:
+				return false
+			case *ast.CallExpr:
+				if sel, ok := ast.Unparen(x.Fun).(*ast.SelectorExpr); ok {
+					if s := c.Info.Selections[sel]; s != nil && s.Kind() == types.MethodVal {
+						t := c.Term(sel.X)
+						if out[t] == nil {
+							out[t] = map[string]bool{}
+						}
+						out[t][sel.Sel.Name] = true
+					}
+				}
+			}
+			return true
+		})
+	}
+	walk = func(f *F) {
+		if f == nil {
+			return
+		}
+		if f.Op == OpAtom {
+			if f.Expr != nil {
+				visit(f.Expr)
+			}
+			for _, n := range f.OpqNodes {
+				visit(n)
+			}
+			return
+		}
+		for _, a := range f.Kids {
+			walk(a)
+		}
+	}
+	walk(f)
+	return out
+}
+
+// RoleOf reports the role name (recv, p0, r0, ...) of a receiver, parameter or named result.
+func (c *Canon) RoleOf(o types.Object) (string, bool) {
+	r, ok := c.roles[o]
+	return r, ok
+}
